@@ -19,15 +19,15 @@ pub fn info() -> PropInfo {
 
 pub fn strategy() -> BoxedStrategy<Case> {
     let value = prop_oneof![
-        3 => value_strategy(ClaimCfg::SHORT_F64, 2),
+        3 => value_strategy(ClaimCfg::LIGHT, 2),
         1 => Just(json!(["jsu9yVulwQQlhFlM_3JlzMaSFzglhQG0DpfayQwLUK4"])),
         1 => Just(json!("jsu9yVulwQQlhFlM_3JlzMaSFzglhQG0DpfayQwLUK4")),
         1 => Just(json!([])),
         1 => Just(json!(null)),
     ];
-    (issue_spec_strategy(ClaimCfg::SHORT_F64, HONEST_PATHS, Just(HolderKey::None).boxed()), value).prop_map(|(issue, value)| C13Case { issue, value }).boxed()
+    (issue_spec_strategy(ClaimCfg::LIGHT, HONEST_PATHS, Just(HolderKey::None).boxed()), value).prop_map(|(issue, value)| C13Case { issue, value }).boxed()
 }
 
 pub fn plan(tier: Tier) -> Plan<Case> {
-    Plan { strategy: strategy(), check, shrink_iters: 300, decode_bytes: None, cases: match tier { Tier::Quick => 3_000, Tier::Thorough => 150_000 } }
+    Plan { strategy: strategy(), check, shrink_iters: 300, decode_bytes: None, watchdog_secs: 600, cases: match tier { Tier::Quick => 3_000, Tier::Thorough => 150_000 } }
 }
